@@ -14,6 +14,7 @@ func (r *EntRepository) RevertDispatched(ctx context.Context) error {
 	err := r.client.Task.Update().
 		Where(task.StateEQ(task.StateDispatched)).
 		SetState(task.StateScheduled).
+		ClearDispatchedAt().
 		Exec(ctx)
 	if gen.IsNotFound(err) {
 		return &def.RepositoryError{Kind: def.Exhausted, Raw: err}
